@@ -55,6 +55,39 @@ func verifyEd25519Signature(jwk *jws.JWK, signature, msg []byte) error {
 	return nil
 }
 
+// isEd25519Point reports whether the 32 bytes are the RFC 8032 encoding of a point of edwards25519: a y below the
+// field prime for which x^2 = (y^2-1)/(d*y^2+1) has a root (and, if that root is zero, no sign bit). The JOSE
+// library copies the bytes without looking at them, and a signature check answers "invalid signature" for them.
+func isEd25519Point(b []byte) bool {
+	p := new(big.Int).Sub(new(big.Int).Lsh(big.NewInt(1), 255), big.NewInt(19))                                         //nolint:mnd
+	d, _ := new(big.Int).SetString("37095705934669439343138083508754565189542113879843219016388785533085940283555", 10) //nolint:mnd
+
+	le := make([]byte, len(b))
+	for i := range b {
+		le[len(b)-1-i] = b[i]
+	}
+
+	sign := le[0] >> 7 //nolint:mnd
+	le[0] &= 0x7f
+
+	y := new(big.Int).SetBytes(le)
+	if y.Cmp(p) >= 0 {
+		return false
+	}
+
+	y2 := new(big.Int).Mul(y, y)
+	u := new(big.Int).Sub(y2, big.NewInt(1))
+	v := new(big.Int).Add(new(big.Int).Mul(d, y2), big.NewInt(1))
+	x2 := new(big.Int).Mul(u.Mod(u, p), new(big.Int).ModInverse(v.Mod(v, p), p))
+	x2.Mod(x2, p)
+
+	if x2.Sign() == 0 {
+		return sign == 0
+	}
+
+	return new(big.Int).ModSqrt(x2, p) != nil
+}
+
 // GetED25519PublicKey retunns ed25519 public key.
 func GetED25519PublicKey(jwk *jws.JWK) (ed25519.PublicKey, error) {
 	// the JOSE library pads or truncates 'x' to the key size; require the exact width here
@@ -86,6 +119,10 @@ func GetED25519PublicKey(jwk *jws.JWK) (ed25519.PublicKey, error) {
 	// ed25519 panics if key size is wrong
 	if len(pubKey) != ed25519.PublicKeySize {
 		return nil, errors.New("ed25519: invalid key")
+	}
+
+	if !isEd25519Point(pubKey) {
+		return nil, errors.New("ed25519: invalid key: not a point of the curve")
 	}
 
 	return pubKey, nil
